@@ -334,10 +334,10 @@ impl CreateEdge {
     fn execute(&self, exec: &mut ExecutionContext) -> Result<(), ExecutionError> {
         let source = self.source.evaluate(exec)?.into_graph_node_ref()?;
         let sink = self.sink.evaluate(exec)?.into_graph_node_ref()?;
-        let edge = match exec.graph[source].add_edge(sink) {
-            Ok(edge) | Err(edge) => edge,
-        };
-        self.add_debug_attrs(&mut edge.attributes, exec.config)?;
+        // only the statement that actually creates the edge records its location on it
+        if let Ok(edge) = exec.graph[source].add_edge(sink) {
+            self.add_debug_attrs(&mut edge.attributes, exec.config)?;
+        }
         Ok(())
     }
 }
